@@ -319,6 +319,12 @@ def pattern_method(I, pat, name, args, kwargs, node):
             return getattr(pat, name)(*args, **kwargs)
         except Exception as e:
             raise sx.SymRaise(type(e), sx._txt(node))
+    if isinstance(pat.pattern, str):
+        if name == "sub" and len(args) == 2 and L.is_z3(args[1]) and z3.is_string(args[1]):
+            # str pattern on a symbolic string: the result is some string (over-approximation: nothing is assumed about it)
+            I.ctx.notes.add("regex sub(%r) on a symbolic str over-approximated by an arbitrary string" % pat.pattern)
+            return z3.String(I.ctx.fresh_name("resub"))
+        raise SymError("str regex %r method %s on symbolic subject" % (pat.pattern, name))
     table = pattern_class(pat)
     if name == "sub":
         # RE.sub(repl, bytes): a function of (pattern, replacement kind, subject) - uninterpreted
